@@ -236,6 +236,86 @@ func (b *hb) queries(n int) {
 
 // GenHist builds one history. phase selects the shape; size scales the number of operations.
 func GenHist(r *vproto.Rng, phase int, par [2]int, kind string, size int, nq int) *Hist {
+	return genHistScale(r, phase, par, kind, size, nq, 0)
+}
+
+// ExtremeScales: coordinate units at which the heuristics' areas (products of two side lengths)
+// overflow to +Inf (and their differences to NaN) or underflow to 0, while every coordinate, every
+// comparison of coordinates and hence every envelope stays exact.  2^511/2^512: areas around
+// MaxFloat64 (some finite, some +Inf in one tree).
+var ExtremeScales = []float64{0x1p600, 0x1p700, 0x1p900, 0x1p511, 0x1p512, 0x1p506, 0x1p-600, 0x1p-1000, 0x1p-530}
+
+// GenExtreme: a GenHist history at an extreme coordinate unit; with `mixed` a random half of the pool
+// is rescaled by 2^-600 (finite and overflowing areas in the same node: Inf-Inf = NaN in chooseNode,
+// pickSeeds, pickNext, assignGroup).  The float heuristics then differ from the exact-Rat model, so
+// the class carries "specOnly": judged by the Spec alone (C11_anyArith_inRange: the invariants hold
+// for ANY evaluation of the heuristic arithmetic).
+func GenExtreme(r *vproto.Rng, phase int, par [2]int, kind string, size int) *Hist {
+	sc := ExtremeScales[r.Intn(len(ExtremeScales))]
+	mixed := r.Chance(0.35)
+	h := genHistScale(r, phase, par, kind, size, 5, sc)
+	if mixed {
+		f := 0x1p-600
+		if sc < 1 {
+			f = 0x1p600
+		}
+		for i := range h.Pool {
+			if r.Bool() {
+				b := h.Pool[i]
+				h.Pool[i] = Box{b.MinX * f, b.MinY * f, b.MaxX * f, b.MaxY * f}
+			}
+		}
+		for i := 1; i < len(h.Queries); i += 2 {
+			b := h.Queries[i]
+			h.Queries[i] = Box{b.MinX * f, b.MinY * f, b.MaxX * f, b.MaxY * f}
+		}
+	}
+	tag := "ovf"
+	if sc < 1 {
+		tag = "unf"
+	}
+	if mixed {
+		tag += "mix"
+	}
+	h.Class = "extreme-specOnly-" + tag + "-" + h.Class
+	return h
+}
+
+// CorpusExtreme: fixed overflow histories (C11 only; not part of Corpus(), which C12 shares).
+func CorpusExtreme() []*Hist {
+	var hs []*Hist
+	s := 0x1p600
+	w := 0x1p700
+	for _, par := range [][2]int{{2, 4}, {2, 3}, {3, 6}} {
+		for _, kind := range []string{"pt", "ptr", "bnd"} {
+			// points on the diagonal at unit 2^600: the sixth Insert is the first chooseNode on a
+			// non-leaf root; every enlargement is +Inf or NaN (failing input of fix a6a6e32)
+			var pool []Box
+			var ops []Op
+			n := 3*par[1] + 2
+			for i := 0; i < n; i++ {
+				x := float64(i) * s
+				bx := Box{x, x, x, x}
+				if kind != "pt" && i%3 == 1 {
+					bx = Box{x, x, x + s, x + 2*s}
+				}
+				pool = append(pool, bx)
+				ops = append(ops, Op{ID: i})
+			}
+			for i := 0; i < n; i += 2 {
+				ops = append(ops, Op{Del: true, ID: i})
+			}
+			for i := 0; i < n; i += 4 {
+				ops = append(ops, Op{ID: i})
+			}
+			hs = append(hs, &Hist{Class: "corpus-extreme-specOnly-overflow", Min: par[0], Max: par[1], Kind: kind, Pool: pool, Ops: ops,
+				Queries: []Box{{-w, -w, w, w}, {s, s, s, s}, {2 * s, 0, 2 * s, w}, {-s, -s, -1, -1}, {0, 0, 0, 0}}})
+		}
+	}
+	return hs
+}
+
+func genHistScale(r *vproto.Rng, phase int, par [2]int, kind string, size int, nq int, scOverride float64) *Hist {
 	h := &Hist{Min: par[0], Max: par[1], Kind: kind}
 	layout := r.Intn(6)
 	sc := Scales[r.Intn(len(Scales))]
@@ -244,6 +324,9 @@ func GenHist(r *vproto.Rng, phase int, par [2]int, kind string, size int, nq int
 	}
 	if layout == 5 {
 		sc = 1.0 / 1024
+	}
+	if scOverride != 0 {
+		sc = scOverride
 	}
 	h.Scale = sc
 	big := par[1] >= 50
@@ -525,6 +608,20 @@ func Gen(seed uint64, tier string) []*Hist {
 			size = 60 + r.Intn(40)
 		}
 		hs = append(hs, GenHist(r, phase, par, kind, size, 5))
+	}
+	// extreme coordinate units (own random stream: the histories above are unchanged)
+	hs = append(hs, CorpusExtreme()...)
+	rx := vproto.NewRng(seed*7919 + 11)
+	nx := 24
+	if tier == "thorough" {
+		nx = 300
+	}
+	for i := 0; i < nx; i++ {
+		par := Params[(i+i/len(Params))%len(Params)]
+		if par[1] >= 50 && i%2 == 0 {
+			par = Params[0]
+		}
+		hs = append(hs, GenExtreme(rx, i%6, par, Kinds[i%len(Kinds)], 8+rx.Intn(40)))
 	}
 	return hs
 }
